@@ -209,6 +209,7 @@ def gen_case(rng: random.Random, i: int) -> dict:
                                 with_stats=with_stats and rng.random() < 0.8, fault=rng.random() < 0.2))
     init1 = S.gen_repl(rng, clock) + [0]
     cmds = [init1]
+    aborted = False
     if kind == "never":
         pass
     elif kind == "stepped":
@@ -234,6 +235,12 @@ def gen_case(rng: random.Random, i: int) -> dict:
         cmds += run_cmds_for(rng, clock, init1)
         ini = S.gen_repl(rng, clock) + [1]
         cmds += [ini] + run_cmds_for(rng, clock, ini)
+        if rng.random() < 0.3:
+            # the other model's construct_model raises: its initialize is ABORTED (the exception leaves initialize),
+            # what follows on it is refused; the simulator must still give a fresh run to the next initialize
+            b0 = models[1]["prog"][0]
+            b0.insert(rng.randint(0, len(b0)), ["fail"])
+            aborted = True
     elif kind == "multi":
         for _ in range(rng.randint(2, 3)):
             cmds += run_cmds_for(rng, clock, cmds[-1] if cmds[-1][0] == "init" else init1)
@@ -241,7 +248,7 @@ def gen_case(rng: random.Random, i: int) -> dict:
             cmds.append(ini)
         cmds += run_cmds_for(rng, clock, cmds[-1])
     # the new replication: same model as the first (or the other one), a different run length
-    mi = 0 if (not two or rng.random() < 0.7) else 1
+    mi = 0 if (not two or aborted or rng.random() < 0.7) else 1
     init2 = S.gen_repl(rng, clock) + [mi]
     if kind == "ended" and rng.random() < 0.6:
         # longer than the replication that ended: events left pending beyond its end must not leak
@@ -309,6 +316,23 @@ def is_det(case):
     return not case.get("stop_at") and not case.get("slow")
 
 
+def aborts(case, c):
+    """c is an initialize of a model whose construct_model raises"""
+    if c[0] != "init":
+        return False
+    mi = c[4] if len(c) > 4 and isinstance(c[4], int) else 0
+    return any(a[0] == "fail" for a in case["models"][mi]["prog"][0])
+
+
+def masked(case, obs):
+    """the observation with the outcome of aborted initialisations written as 'ok' (for simlib.representable)"""
+    o = dict(obs)
+    o["snaps"] = [(["ok"] + list(sn[1:])) if (isinstance(sn[0], str) and sn[0].startswith("exc:") and ci < len(case["cmds"])
+                                                 and aborts(case, case["cmds"][ci])) else sn
+                  for ci, sn in enumerate(obs["snaps"])]
+    return o
+
+
 def oracle(case, obs):
     """first violated clause of C06 on the implementation's own observations, or None; plus facts"""
     facts = {"hist_executed": 0, "hist_pending": 0, "second_executed": 0, "stats": False, "stochastic": not is_det(case),
@@ -333,6 +357,12 @@ def oracle(case, obs):
     dup_keys = any(len({s[0] for s in m["stats"]}) != len(m["stats"]) for m in case["models"])
     for ci, c in enumerate(case["cmds"]):
         r = obs["snaps"][ci][0]
+        if aborts(case, c):
+            if r == "exc:RuntimeError" and obs["snaps"][ci][1:3] == ["NOT_INITIALIZED", "NOT_INITIALIZED"]:
+                continue
+            if r != "refused":
+                return ("aborted-initialize-wrong", f"{c}: construct_model raises, initialize answered {r} and left "
+                        f"{obs['snaps'][ci][1:3]}"), facts
         if r not in ("ok", "refused"):
             return ("command-raises-unrelated-error", f"{c} -> {r}"), facts
     # initialize issued by a handler of the running simulation must be refused
@@ -476,7 +506,7 @@ def coq_repr(case, obs):
     """None if case + observation can be written as an xcase, else why not"""
     if not is_det(case):
         return "stochastic"
-    why = S.representable(obs)
+    why = S.representable(masked(case, obs))
     if why:
         return why
     if obs.get("racy_snaps"):
@@ -680,7 +710,8 @@ def c_yfed(sid, fed):
 
 
 def c_yexpect(obs):
-    snaps = C.clist(f"mkSnap {'ResOk' if s[0] == 'ok' else 'ResRefused'} {S.RS[s[1]]} {S.PS[s[2]]} {C.cz(s[3])} {C.cnat(s[4])}"
+    res = lambda r: "ResOk" if r == "ok" else ("ResRaised" if r.startswith("exc:") else "ResRefused")
+    snaps = C.clist(f"mkSnap {res(s[0])} {S.RS[s[1]]} {S.PS[s[2]]} {C.cz(s[3])} {C.cnat(s[4])}"
                     for s in obs["snaps"])
     trace = C.clist(f"({C.cnat(k)}, {C.cz(t)})" for k, t in obs["trace"])
     outs = C.clist({"acc": "OAccepted", "ref": "ORefused", "cmdok": "OCmdOk", "cmdref": "OCmdRefused"}[o]
@@ -761,7 +792,7 @@ YPRELUDE = ["From Coq Require Import ZArith List.",
 
 
 def y_repr(case, obs):
-    why = S.representable(obs)
+    why = S.representable(masked(case, obs))
     if why:
         return why
     if case.get("stop_at"):
@@ -899,7 +930,7 @@ def shrink(case, pred, budget=60):
 
 RULE = ("generated (history, new replication) pairs on int / float / Duration clocks: history kinds never started, stepped k "
         "times, bounded run, ended, paused by a handler fault (WARN_AND_PAUSE), paused by stop() from a handler, "
-        "end_replication, cleanup, another model's replication in between, several replications in sequence, re-initialisation "
+        "end_replication, cleanup, another model's replication in between (in 30% of these the other model's construct_model raises: an aborted initialize), several replications in sequence, re-initialisation "
         "at the instant is_starting_or_running() turns False while a slow subscriber is still being notified of STOP / END_REPLICATION, "
         "initialize (and start) of a long next replication issued from inside the END_REPLICATION notification of the previous one; one or two "
         "model programs taking turns; models with / without SimCounter, SimTally, SimPersistent built in construct_model "
